@@ -322,6 +322,9 @@ def reverse_pass(ctx, bk):
     _BK[bk.name] = bk
     en = _enum(bk, "full")
     terms = list(en.terms(typed.B, 0)) + list(en.terms(typed.B, 1))
+    # filters that differ only in the letter case / spelling of a string literal, adjacent (text-keyed caches)
+    for sv in ("a", "A", "ab", "AB", "Ab", "a ", " a"):
+        terms += string_position_terms(T.Str(sv), bk.cap)[:12]
     for term in terms:
         check_term_generic(ctx, bk, term, styles=("min",))
     for term in reversed(terms):
